@@ -71,7 +71,7 @@ class TransactionManager:
 
         self._txn_partitions = set()
         self._pending_txn_partitions = set()
-        self._txn_consumer_group = None
+        self._txn_consumer_groups = set()
         self._pending_txn_offsets = deque()
         # The error that left the open transaction fit only for an abort
         self._abortable_error = None
@@ -145,7 +145,7 @@ class TransactionManager:
         assert not self._pending_txn_offsets
         self._transition_to(TransactionState.READY)
         self._txn_partitions.clear()
-        self._txn_consumer_group = None
+        self._txn_consumer_groups.clear()
         self._abortable_error = None
         if not self._transaction_waiter.done():
             self._transaction_waiter.set_result(None)
@@ -165,7 +165,7 @@ class TransactionManager:
     def fatal_error(self, exc):
         self._transition_to(TransactionState.FATAL_ERROR)
         self._txn_partitions.clear()
-        self._txn_consumer_group = None
+        self._txn_consumer_groups.clear()
         self._pending_txn_partitions.clear()
         for _, _, fut in self._pending_txn_offsets:
             fut.set_exception(exc)
@@ -198,16 +198,18 @@ class TransactionManager:
         return self._pending_txn_partitions
 
     def consumer_group_to_add(self):
-        if self._txn_consumer_group is not None:
-            return None
+        # A transaction can carry offsets of several groups, each of them has
+        # to be added before its offsets are committed
         for group_id, _, _ in self._pending_txn_offsets:
+            if group_id in self._txn_consumer_groups:
+                return None
             return group_id
         return None
 
     def offsets_to_commit(self):
-        if self._txn_consumer_group is None:
-            return None
         for group_id, offsets, _ in self._pending_txn_offsets:
+            if group_id not in self._txn_consumer_groups:
+                return None
             return offsets, group_id
         return None
 
@@ -216,7 +218,7 @@ class TransactionManager:
         self._txn_partitions.add(tp)
 
     def consumer_group_added(self, group_id):
-        self._txn_consumer_group = group_id
+        self._txn_consumer_groups.add(group_id)
 
     def offset_committed(self, tp, offset, group_id):
         pending_group_id, pending_offsets, fut = self._pending_txn_offsets[0]
@@ -242,7 +244,7 @@ class TransactionManager:
 
     def is_empty_transaction(self):
         # whether we sent either data to a partition or committed offset
-        return len(self.txn_partitions) == 0 and self._txn_consumer_group is None
+        return len(self.txn_partitions) == 0 and not self._txn_consumer_groups
 
     def is_fatal_error(self):
         return self.state == TransactionState.FATAL_ERROR
